@@ -479,3 +479,51 @@ func C03ContainersDeep() {
 	}
 	sym.Reach("containers-deep-done")
 }
+
+type zzLongList struct {
+	L []int16
+	T uint32
+}
+
+// C03LongLists: list lengths around the powers of two up to 4097 (chunked allocation, growth and
+// limit boundaries live there): the three codecs still agree on every element and on what follows the list.
+func C03LongLists() {
+	sym.SetMaxMaterialise(1 << 16)
+	// (the reflection decoder documents a limit of 4096 elements: listValueMaxSize)
+	lens := []int{15, 16, 17, 63, 64, 65, 255, 256, 257, 1023, 1024, 1025, 2047, 2048, 2049, 4095, 4096}
+	n := lens[sym.Choose("list-length", len(lens))]
+	v := zzLongList{L: make([]int16, n), T: sym.U32("trailer")}
+	// a few symbolic positions, the rest distinct constants
+	for i := range v.L {
+		v.L[i] = int16(i)
+	}
+	v.L[0], v.L[n/2], v.L[n-1] = sym.I16("first"), sym.I16("middle"), sym.I16("last")
+	var buf bytes.Buffer
+	sym.Assert(NewEncoder(nil, &buf).Encode(v) == nil, "long-list/encode-ok")
+	enc := buf.Bytes()
+	sym.Assert(len(enc) == 4+2*n+4, "long-list/encoded-length")
+	if len(enc) != 4+2*n+4 {
+		return
+	}
+	sym.Assert(sym.EqBytes(enc[:4], zzLE32(uint32(n))), "long-list/count")
+	sym.Assert(sym.EqBytes(enc[4+2*(n-1):], zzCat(zzLE16(uint16(v.L[n-1])), zzLE32(v.T))), "long-list/tail-layout")
+	reader, err := signature.MakeReader("([w]I)")
+	sym.Assert(err == nil, "long-list/reader-built")
+	if err == nil {
+		r := bytes.NewReader(append(append([]byte{}, enc...), 0x77))
+		got, err := reader.Read(r)
+		sym.Assert(err == nil, "long-list/reader-accepts")
+		if err == nil {
+			sym.Assert(r.Len() == 1 && len(got) == len(enc), "long-list/reader-consumes-exactly")
+		}
+	}
+	var back zzLongList
+	sym.Assert(NewDecoder(nil, bytes.NewReader(enc)).Decode(&back) == nil, "long-list/decode-ok")
+	sym.Assert(len(back.L) == n, "long-list/decoded-length")
+	if len(back.L) == n {
+		sym.Assert(sym.And(back.L[0] == v.L[0], sym.And(back.L[n/2] == v.L[n/2], back.L[n-1] == v.L[n-1])), "long-list/decoded-elements")
+		sym.Assert(back.L[n-2] == v.L[n-2] && back.L[1] == v.L[1], "long-list/decoded-neighbours")
+	}
+	sym.Assert(back.T == v.T, "long-list/field-after-the-list")
+	sym.Reach("long-lists-done")
+}
